@@ -6,6 +6,7 @@ A(i)  == [op |-> "async", i |-> i]
 BA(i) == [op |-> "basync", i |-> i]
 S(i)  == [op |-> "sync", i |-> i]
 BS(i) == [op |-> "bsync", i |-> i]
+AW(i) == [op |-> "aaw", i |-> i]
 SUSP == [op |-> "suspend"]
 RES  == [op |-> "resume"]
 ACT  == [op |-> "activate"]
@@ -16,6 +17,17 @@ NoBody(I) == [i \in I |-> "none"]
 ItemsQ1 == {"a", "b", "x"}
 KindQ1 == ("a" :> "ra" @@ "b" :> "rs" @@ "x" :> "ra")
 ProgQ1 == ("c1" :> <<A("a"), S("b")>> @@ "c2" :> <<A("x")>>)
+
+\* ---- Q1w: as Q1 with dispatch_async_and_wait instead of dispatch_sync ----
+ItemsQ1w == {"a", "b", "x"}
+KindQ1w == ("a" :> "ra" @@ "b" :> "rw" @@ "x" :> "ra")
+ProgQ1w == ("c1" :> <<A("a"), AW("b")>> @@ "c2" :> <<A("x")>>)
+BodyQ1w == NoBody(ItemsQ1w)
+\* ---- Q2w: concurrent lane: barrier_async_and_wait against a reader and a sync reader ----
+ItemsQ2w == {"r1", "b1", "s1"}
+KindQ2w == ("r1" :> "ra" @@ "b1" :> "bw" @@ "s1" :> "rw")
+ProgQ2w == ("c1" :> <<A("r1"), AW("b1")>> @@ "c2" :> <<AW("s1")>>)
+BodyQ2w == NoBody(ItemsQ2w)
 
 \* ---- Q1p: the F1 program: c1 = async a; sync b   c2 = async i0; async x ----
 ItemsQ1p == {"a", "b", "i0", "x"}
